@@ -57,6 +57,10 @@ CHECKS = {
    text="Core.tla (checked by TLC) is the single reference: every request class of the 8 common methods x id kinds x 3 registration sets is sent as identical bytes to Streamable JSON / SSE / stateless / sessions-disabled, legacy SSE and stdio servers; the normalised answers must be pairwise equal (same result up to list order, or the same error code) and admitted by Core; a scripted server gives the same 23 answers (every content kind, structured content, error answers, lists, prompt messages, resource contents) to the library's Streamable (JSON and SSE answers), legacy SSE and stdio clients and the returned values / error classes must agree; the answer tables are validated by TLC against TraceParity.",
    note="Trusted: TLC, the raw peer, the scripted server and the scripted stdio child. Compared up to the order of listed items and the wording of error messages.",
    technique="TLA+ reference (Core) + identical-bytes replay on 6 server kinds and 4 client configurations + TLC validation of the answer tables"),
+ "C06": dict(level="fault_enumeration", design="DESIGN.md §5 C06",
+   text="Survive.tla (checked by TLC for all input sequences up to length 3) names the input classes and the reactions admitted for each; representatives of every class (syntax garbage, truncation at token boundaries, invalid UTF-8, nesting 10^4, 10 MiB strings, huge numbers, every JSON type in every field, unknown methods, wrong paths and verbs, bad Content-Length, duplicated / garbage headers, stray responses and notifications) are fed by a raw peer - in orders realising every ordered pair of classes in the thorough tier - to Streamable JSON / SSE / stateless / sessions-disabled, legacy SSE and stdio servers running in a child process; after each batch the server must answer a ping on the same and on a fresh connection and have no library goroutine left; a crash is bisected to the single input; the feed / health log is validated by TLC against TraceSurvive.",
+   note="Trusted: TLC, the raw peer (every exchange bounded: 5-10 s), the library-frame filter of the goroutine dump. Coverage-guided byte fuzzing is a different technique and not used: 'all byte strings' is covered by classes only.",
+   technique="TLA+ enumeration of fault classes and orderings + fault-injecting raw peer against 6 server kinds + TLC validation of the feed/health log"),
 }
 NA = {
  "C20": "data-race freedom is a statement about individual memory accesses under the Go memory model; an abstract state-machine specification has no notion of them (see DESIGN.md §6)",
